@@ -27,7 +27,7 @@ import warnings
 
 import numpy as np
 
-from .common import random_sorted_table, scratch_dir, sorted_parent_tables
+from .common import MAG_COORDS, MAG_IDS, MAG_RADII, MAG_TYPES, random_sorted_table, scratch_dir, sorted_parent_tables
 
 FLOATS = ["0", "7", "1.", ".5", "1e3", "1E-2", "+2.5", "-3.25", "-.5e1", "12.5e+1", "-0.0", "0.1000", "+0", "3.14159", "-1.E+1", "00.5"]
 SEPS = [" ", "\t", "  "]
@@ -524,6 +524,19 @@ def make_rows(pid, base_id, step, k, nextra, extra_pool):
     return rows
 
 
+def magnitude_rows(pid, base_id, step, k):
+    """rows of parent table `pid` whose ids start far from 0 (`base_id`), whose types run through the magnitude pool (both sides of every
+    integer width), with coordinates around 1e5 carrying four decimals and tiny / huge radii (pools: bounded/common.py)"""
+    rows = []
+    for i, p in enumerate(pid):
+        tok = [str(base_id + step * i), str(MAG_TYPES[(k + 5 * i) % len(MAG_TYPES)])]
+        tok += [f"{MAG_COORDS[(k + i + 2 * j) % len(MAG_COORDS)]:.4f}" if (i + j + k) % 3 else FLOATS[(k + i + j) % len(FLOATS)] for j in range(3)]
+        tok.append(repr(MAG_RADII[(k + i) % len(MAG_RADII)]) if (i + k) % 2 else f"{MAG_RADII[(k + i) % len(MAG_RADII)]:.6f}")
+        tok.append("-1" if p == -1 else str(base_id + step * p))
+        rows.append(tok)
+    return rows
+
+
 def render(rows, sepmode, lead, trail, eol, decor, k, final_newline=True):
     """decor: 0 none, 1 blank lines, 2 comment lines, 3 both (before, between and after rows)."""
     lines = []
@@ -737,13 +750,25 @@ def run(ctx):
             ids = rng.sample(range(0, 3 * n + 2), n)
             go("sorted", dict(kind="sorted", text=sorted_text(pid, perm, ids, kx), src=SRCS[kx % 3]))
 
+        # (4b) magnitudes: every type of the magnitude pool x ids starting at every large base (and 0 / 1) x reset_index x read source; the
+        # same rows also as a SORTED read (ids far from 0 in arbitrary row order are covered by (4) for small ids only)
+        for ti in range(len(MAG_TYPES)):
+            for bi, base_id in enumerate([0, 1] + MAG_IDS):
+                k += 1
+                n = 1 + (ti + bi) % 5
+                rows = magnitude_rows(tables_for(n, k), base_id, (1, 1, 3, 1000)[(ti + bi) % 4], ti + len(MAG_TYPES) * bi)
+                text = render(rows, k % 4, LEADS[k % len(LEADS)], TRAILS[k % 3], EOLS[k % 2], k % 4, k, final_newline=(k % 5 != 0))
+                go("magnitudes", dict(kind="good", text=text, src=SRCS[k % 3], opts=dict(reset_index=(k % 2 == 0))))
+
         # (5) seeded random tail of well-formed texts
         for _ in range(3000 if thorough else 200):
             k += 1
             n = rng.randint(1, 6)
             nfx = rng.randint(0, 2)
-            rows = make_rows(random_sorted_table(rng, n), rng.choice([0, 1, 2, 17, 99999]), rng.choice([1, 1, 2, 10]), rng.randrange(10**6), nfx, EXTRA_PLAIN)
+            rows = make_rows(random_sorted_table(rng, n), rng.choice([0, 1, 2, 17, 99999] + MAG_IDS), rng.choice([1, 1, 2, 10]), rng.randrange(10**6), nfx, EXTRA_PLAIN)
             for tok in rows:
+                if rng.random() < 0.3:
+                    tok[1] = str(rng.choice(MAG_TYPES))
                 for j in range(2, 6):
                     if rng.random() < 0.5:
                         tok[j] = rng.choice(["", "+", "-"]) + rng.choice([f"{rng.random() * 10 ** rng.randint(-3, 5):.{rng.randint(0, 6)}f}",
@@ -804,7 +829,8 @@ def run(ctx):
                  "extra_cols None/['a']/['a','b'], sources StringIO/BytesIO/path, encodings utf-8/utf-16/latin-1/detect; each of " + str(len(bads)) + " malformed lines "
                  "(6 fields, 1 field, 'abc' and '1,5' in each of the 7 columns) inserted at EVERY line position of " + str(len(bases)) + " base texts (sources and option sets {}, reset_index=False, sort_nodes=True rotating) and of a plain 2-row text (all 3 sources x 3 option sets); b'\\xff\\xfe' at "
                  + str(len(offs)) + " offsets of a 20 KB body (raw offset and inside a comment) from BytesIO and path; sort_nodes=True on all parent tables <= "
-                 + str(5 if thorough else 4) + " nodes x all row orders x 2 id assignments (quick: 1 for 4 nodes) + random tail. Oracle: 15-line reference reader (str.split + int/float); "
+                 + str(5 if thorough else 4) + " nodes x all row orders x 2 id assignments (quick: 1 for 4 nodes) + random tail; MAGNITUDES: types " + repr(MAG_TYPES) + " x first ids "
+                 + repr([0, 1] + MAG_IDS) + " (steps 1/3/1000), coordinates " + repr(MAG_COORDS) + " with four decimals, radii " + repr(MAG_RADII) + ", through read_swc and Tree.from_swc. Oracle: 15-line reference reader (str.split + int/float); "
                  "'must raise' for corrupted inputs. Every case is non-trivial (>= 1 data row). SIZE: " + str(kl) + " generated big files -- 100 000 rows / 3.6 MiB dense, "
                  "12 000 wide rows / 3.3 MiB (LF and CRLF, comments every 1000 rows, blank lines, a comment behind the last row) through StringIO / BytesIO / path x read_swc / "
                  "Tree.from_swc and the lazy Population read, each also with a malformed line at 99.1 - 99.99 % of the lines (must raise); files of exactly B, B+1 "
